@@ -15,7 +15,7 @@ import (
 // an error event.  The scan is run from offset 0, 1, behind the end and one or two offsets in between;
 // two of three scenarios end with a restart of a real sequencer on a persisted pair covering a prefix.
 func genScan(r *kit.Rng) *ScanScenario {
-	sc := &ScanScenario{Kind: "scan", Reopen: r.Chance(2, 3)}
+	sc := &ScanScenario{Kind: "scan", Reopen: r.Chance(2, 3), FromZero: r.Chance(1, 4)}
 	all := []uint64{1, 2, 77}
 	wss := all[:1+r.Intn(3)]
 	if r.Chance(1, 2) {
@@ -94,6 +94,11 @@ func genScan(r *kit.Rng) *ScanScenario {
 		if r.Chance(1, 3) {
 			rs.Ahead = 1 + r.Intn(2)
 		}
+		if r.Chance(1, 4) {
+			// no next-offset row although the log has events: nothing persisted at all (the first flush of a
+			// fresh partition is skipped), or only numbers (crash before the first offset write)
+			rs.Prefix, rs.NoOffsetRow = 0, true
+		}
 		rs.WSs = append(rs.WSs, wss...)
 		if r.Chance(1, 3) {
 			rs.WSs = append(rs.WSs, 9)
@@ -133,10 +138,6 @@ func replayScan(b []byte, out *kit.Out) (bool, error) {
 		e.Obs = nil
 	}
 	sc.Runs = nil
-	c, err := executeScan(sc)
-	if err != nil {
-		return true, err
-	}
-	out.Emit(c)
+	out.Emit(executeScan(sc))
 	return true, nil
 }
